@@ -614,6 +614,9 @@ package core
 //@   ensures[C06.ix_search_storage_monotone] stRems >= old(stRems)
 //@   loop 1: invariant[C08.ix_search_loop] stRems >= old(stRems) && forall(k, string, has(s.IdToFact, k) ==> old(has(s.IdToFact, k)))
 //@   also-modifies stRems, stErr
+// (the error of a purge made while searching is logged and swallowed by design: it is not an error of the cascade, so the
+// cascade's error record is left as it was by a search)
+//@   ghost-ensures remErr == old(remErr)
 //@ func (*IndexedState).expire
 //@   ensures[C08.ix_expire_only_removes]     forall(k, string, has(s.IdToFact, k) ==> old(has(s.IdToFact, k)))
 //@   ensures[C06.ix_expire_storage_monotone] stRems >= old(stRems)
@@ -638,6 +641,7 @@ package core
 //@   ensures[C06.lin_search_storage_monotone] stRems >= old(stRems)
 //@   loop 1: invariant[C08.lin_search_loop] stRems >= old(stRems) && forall(k, string, has(s.Facts, k) ==> old(has(s.Facts, k)))
 //@   also-modifies stRems, stErr
+//@   ghost-ensures remErr == old(remErr)
 //@ func (*LinearState).expire
 //@   ensures[C08.lin_expire_only_removes]     forall(k, string, has(s.Facts, k) ==> old(has(s.Facts, k)))
 //@   ensures[C06.lin_expire_storage_monotone] stRems >= old(stRems)
